@@ -335,6 +335,7 @@ def exec_cases(binary, workdir, name, cases, *, ncpu=0, race=False, timeout=1500
         start = zlib.crc32(name.encode()) % len(avail)
         cpus = {avail[(start + k) % len(avail)] for k in range(min(ncpu, len(avail)))}
     skip, errs, t0 = 0, [], time.time()
+    retried = set()
     while skip < len(cases):
         if time.time() - t0 > timeout:
             raise core.Infra("vh par-exec %s exceeded %ss" % (name, timeout))
@@ -352,6 +353,18 @@ def exec_cases(binary, workdir, name, cases, *, ncpu=0, race=False, timeout=1500
             raise core.Infra("vh par-exec %s failed (%d):\n%s" % (name, p.returncode, p.stderr[-3000:]))
         # the process died inside case ids[-1]: a goroutine of the code under test panicked (2) or hung (4)
         pos = next(i for i, c in enumerate(cases) if c["id"] == ids[-1])
+        if p.returncode == 4 and ids[-1] not in retried:
+            # a hang may be an overloaded machine: drop the case's partial lines, run it once more
+            retried.add(ids[-1])
+            with open(tp) as f:
+                keep = f.readlines()
+            while keep and not keep[-1].startswith('{"k":"case"'):
+                keep.pop()
+            with open(tp, "w") as f:
+                f.write("".join(keep[:-1]))
+            errs[-1] = errs[-1][:errs[-1].rfind("CASE %d\n" % ids[-1])]
+            skip = pos
+            continue
         if p.returncode == 2:
             c = cases[pos]
             with open(tp, "a") as f:
@@ -368,6 +381,16 @@ def exec_cases(binary, workdir, name, cases, *, ncpu=0, race=False, timeout=1500
 
 
 _FRAME = re.compile(r"^  (\S+)\(\)$")
+
+
+def short_fn(t):
+    """github.com/EliCDavis/polyform/modeling/marching.(*MarchingCanvas).addFloat1Range -> addFloat1Range ;
+    .../modeling.Mesh.ModifyFloat3AttributeParallelWithPoolSize.func1 -> ModifyFloat3AttributeParallelWithPoolSize.func1"""
+    t = t.split("/")[-1]
+    t = t.split(".", 1)[1] if "." in t else t
+    t = re.sub(r"^\(\*?\w+\)\.", "", t)
+    t = re.sub(r"^(Mesh|MarchingCanvas)\.", "", t)
+    return re.sub(r"\.gowrap\d+$", "", t)
 
 
 def parse_races(stderr):
@@ -398,7 +421,7 @@ def parse_races(stderr):
             while len(tops) < 2:
                 tops.append("?")
             poly = all(t.startswith("github.com/EliCDavis/polyform/") for t in tops)
-            short = sorted(re.sub(r"^.*[./]", "", re.sub(r"\(\*?\w+\)\.", "", t)) for t in tops)
+            short = sorted(short_fn(t) for t in tops)
             res.setdefault(cur, []).append((poly, short[0], short[1]))
     return res
 
@@ -703,6 +726,18 @@ def stats(ctx, cases, rcases, trace, notes):
             exact_ += vis == cur["prio"]
     notes["model_schedules_executed"] = gen
     notes["model_schedules_imposed_exactly"] = exact_
+    # vacuity guard: every part of the judge must have had something to judge
+    need = {"visit lines": kinds.get("visit", 0), "done lines": kinds.get("done", 0), "run lines": kinds.get("run", 0),
+            "field lines": kinds.get("field", 0), "march comparisons with triangles": tri, "race lines": kinds.get("race", 0),
+            "cases with n < w": notes["scan_cases_n_lt_w"], "cases with n % w != 0": notes["scan_cases_n_not_divisible"],
+            "multi-block field cases": notes["field_cases_multi_block"],
+            "field cases with more jobs than workers": notes["field_cases_more_jobs_than_workers"],
+            "model schedules imposed exactly": exact_}
+    empty = [k for k, v in need.items() if v == 0]
+    if empty:
+        raise core.Infra("vacuous run: no %s" % ", ".join(empty))
+    if min(notes["per_variant"].values()) == 0:
+        raise core.Infra("vacuous run: an entry point was never called: %s" % notes["per_variant"])
     notes["trace_lines_by_kind"] = kinds
     notes["march_comparisons_with_triangles"] = tri
 
